@@ -1716,8 +1716,12 @@ def _chain(cx, F, fn, steps, forbidden):
 def r6(cx):
     F = cx.F
     fn = EXP + 'expand_word_multiple'
-    body = F.main_body(fn)
+    # a step moved into a private helper of the module (e.g. the per-field pathname expansion `glob_field_into(..)?` called in the
+    # loop) is seen in place: the helper's blocks are inlined at the call, arguments / results flow through plain assignments
+    body = F.inlined(fn)
     cx.fn(body.fn)
+    for h in getattr(body, 'inlined_from', []):
+        cx.fn(h)
     du = Q.DefUse(body)
     ex = Q.find_calls(body, EXPAND_CALL)
     sp = Q.find_calls(body, SPLIT_INTO)
@@ -1782,7 +1786,7 @@ def r6(cx):
                          loc=body.loc(t))
     ifs_const = re.compile(r'^yash_env::variable::(constants::)?IFS$')
     # (a lookup moved into a private helper of the module is seen through: locals of the function keep their numbers when inlining)
-    ib = F.inlined(fn)
+    ib = body
     seeds = {t['dest']['l'] for b, t in ib.calls() if any(ifs_const.match(a.get('cdef') or '') for a in t['a'])}
     seeds |= {s_['lhs']['l'] for b, j, s_ in ib.stmts() if s_['k'] == 'assign' and
               any(ifs_const.match(o.get('cdef') or '') for o in Q.rvalue_operands(s_['rv']))}
